@@ -279,7 +279,9 @@ fn c11_v4_size_guards() {
     let size: u16 = kani::any();
     kani::assume(size < 28 || size > 1024);
     let udp: bool = kani::any();
-    let ipv4 = any_ipv4_cfg(if udp { Protocol::Udp } else { Protocol::Icmp }, size, false);
+    let mut ipv4 = any_ipv4_cfg(if udp { Protocol::Udp } else { Protocol::Icmp }, size, false);
+    // the guard does not depend on the pattern; concrete in both tiers (symbolic size x symbolic pattern runs out of memory)
+    ipv4.payload_pattern = PayloadPattern(0xA5);
     let probe = any_probe(Flags::empty());
     let mut s = HSock;
     let r = if udp { ipv4.dispatch_udp_probe(&mut s, probe) } else { ipv4.dispatch_icmp_probe(&mut s, probe) };
